@@ -151,7 +151,7 @@ func cmdFunc(args []string) {
 		os.Exit(2)
 	}
 	applyTemplates(P, C)
-	sem := make(chan struct{}, 16)
+	sem := make(chan struct{}, 20)
 	fails := 0
 	for _, k := range keys {
 		if strings.HasPrefix(k, "lemma:") {
@@ -203,7 +203,7 @@ func cmdSweep(args []string) {
 		os.Exit(2)
 	}
 	applyTemplates(P, C)
-	sem := make(chan struct{}, 16)
+	sem := make(chan struct{}, 20)
 	type job struct{ res *FuncResult }
 	var results []*FuncResult
 	done := make(chan *FuncResult)
